@@ -2,7 +2,7 @@
     Property theorems only.  ISIMIP step 6: hand model Model/Isimip.v over the REGENERATED masks (K6);
     QDM / CDFt SSR / LinearScaling / DeltaChange: definitions REGENERATED from the source (GenScalars). *)
 From Coq Require Import QArith ZArith List Bool String.
-From IV Require Import QL NP Dist Ecdf GenUtils GenScalars GenIsimip Isimip C16_compose C10_proofs.
+From IV Require Import QL NP Dist Ecdf GenUtils GenScalars GenPrecip GenIsimip Isimip C16_compose C10_proofs C10_precip.
 Import ListNotations.
 Open Scope Q_scope.
 
@@ -61,3 +61,33 @@ Theorem C10_step6_in_bounds_no_gap : forall lb lt ut ub y, lb <= lt -> lt < ut -
   lb <= y <= ub /\ ~ (lb < y /\ y <= lt) /\ ~ (ut <= y /\ y < ub).
 Proof. exact step6_in_bounds_no_gap. Qed.
 Print Assumptions C10_step6_in_bounds_no_gap.
+
+(** ---- precipitation models of QuantileMapping / ECDFM (REGENERATED: GenPrecip) and parametric QuantileMapping
+    over them: the output is never negative (given an amounts distribution on the non-negative half line, such as
+    the gamma distribution), a quantile in the dry part of the hurdle model comes back as an exact zero, and the
+    censored model returns an exact zero or a value not below the censoring threshold -- never sub-threshold drizzle *)
+Theorem C10_hurdle_ppf_nonneg : forall (P : Type) (D : dist P), (forall p q, 0 <= ppf D p q) ->
+  forall q p0 fr, 0 <= hurdle_ppf D q p0 fr.
+Proof. exact @hurdle_ppf_nonneg. Qed.
+Print Assumptions C10_hurdle_ppf_nonneg.
+
+Theorem C10_hurdle_dry_exact_zero : forall (P : Type) (D : dist P) q p0 fr, q <= p0 -> hurdle_ppf D q p0 fr = 0.
+Proof. exact @hurdle_ppf_dry_exact_zero. Qed.
+Print Assumptions C10_hurdle_dry_exact_zero.
+
+Theorem C10_censored_zero_or_above_threshold : forall (P : Type) (D : dist P) thr q gf, 0 <= thr ->
+  censored_ppf thr true q gf D = 0 \/ thr <= censored_ppf thr true q gf D.
+Proof. exact @censored_ppf_zero_or_above. Qed.
+Print Assumptions C10_censored_zero_or_above_threshold.
+
+Theorem C10_qm_hurdle_output_nonneg : forall (P : Type) (D : dist P) rand u thr obs hist fut out,
+  (forall p q, 0 <= ppf D p q) ->
+  qm_apply_on_window "no_detrending" "parametric" (hurdle_dist D rand u) thr obs hist fut = Some out -> Forall (fun v => 0 <= v) out.
+Proof. exact @qm_hurdle_output_nonneg. Qed.
+Print Assumptions C10_qm_hurdle_output_nonneg.
+
+Theorem C10_qm_censored_output_zero_or_above : forall (P : Type) (G : dist P) gfit cth u thr obs hist fut out, 0 <= cth ->
+  qm_apply_on_window "no_detrending" "parametric" (censored_dist G gfit cth true u) thr obs hist fut = Some out ->
+  Forall (fun v => v = 0 \/ cth <= v) out.
+Proof. exact @qm_censored_output_zero_or_above. Qed.
+Print Assumptions C10_qm_censored_output_zero_or_above.
